@@ -32,11 +32,11 @@ TECHNIQUE = ('Lean 4 theorems about a model of getMibVariants, .index precedence
              'generated directory trees and nested archives; oracle search')
 LEVEL_TEXT = ('Proved in Lean for every ASCII module name, every setting of the matching switches, every extension list, every '
               'directory tree (visiting order is a model input) and archives nested to any depth: every file name tried is a '
-              'documented variant (never an unrelated name); with the default switches every documented variant is tried; an .index '
+              'documented variant (never an unrelated name); for every setting of the switches the variant list exists and every spelling switched on is tried with every extension and every fuzzy form (C14_variants_total, C14_variants_complete_all); .index is a dictionary of its lines - last line for a module counts, lines without two fields map nothing - and its '
               'entry is the only file tried; the directory lookup returns a regular file of the tree named like a tried variant and '
               'reports not-found exactly when no directory holds one; every ZIP member-table entry is the content and mtime of an '
               'actual leaf file filed under its base name (plus disambiguating + signs), and the lookup returns only such entries with '
-              'non-empty content; URL scheme/extension -> reader kind. Not modelled (partial: runtime): zipfile itself, byte decoding, '
+              'non-empty content; URL scheme/extension -> reader kind, and for zip://archive the path the reader is made for (C14_url_target). Not modelled (partial: runtime): zipfile itself, byte decoding, '
               'HTTP/FTP readers (no network). Tied by correspondence on generated trees and archives.')
 LEVEL_NOTE = ('Trusted: Lean kernel + standard axioms; hand-written model (Model/Reader.lean) tied by correspondence; os.listdir order, '
               'zipfile, urlparse and utf-8 decoding in CPython; module names are ASCII (upper/lower are modelled for ASCII only).')
